@@ -401,13 +401,52 @@ package internal
 //@   ensures allRefsNonNil(entries)
 //@   ensures result1 ==> 0 <= result0 && result0 < len(entries)
 
+// ---- C06: what may reach the store -------------------------------------------------------------
+//@ spec func statusUnderstood(c int) bool = c == 200 || c == 203 || c == 301 || c == 304 || c == 404 || c == 405 || c == 410 || c == 414 || c == 501 || c == 308
+//@ spec func storableStatus(status int) bool = status >= 200 && status <= 599 && status != 206 && status != 304
+// response side of storability (status, no-store, must-understand, a freshness indicator); hs: directive view of the response
+//@ spec func storableRespA(status int, expS string, hs Arr[string, bool]) bool = !hs["no-store"] && storableStatus(status) && (hs["must-understand"] ==> statusUnderstood(status)) && (hs["max-age"] || expS != "" || hs["public"] || heurStatus(status))
+//@ spec func storableResp(resp *http.Response) bool = storableRespA(resp.StatusCode, hget(resp.Header, "Expires"), dirsHas(ccText(resp.Header)))
+// request side: a plain GET (no Range) without no-store
+//@ spec func storableReq(req *http.Request) bool = req.Method == "GET" && hget(req.Header, "Range") == "" && !dirsHas(ccText(req.Header))["no-store"]
+
 //@ iface CacheabilityEvaluator.CanStoreResponse(e, resp, reqCC, resCC)
+//@   property C06
 //@   pure
 //@   requires resp != nil
+//@   ensures result && resp.StatusCode != 304 ==> !has(reqCC, "no-store") && storableRespA(resp.StatusCode, hget(resp.Header, "Expires"), hasArr(resCC))     # name: only-storable
+
+//@ func canStoreResponse
+//@   property C06
+//@   pure
+//@   requires resp != nil
+//@   ensures result && resp.StatusCode != 304 ==> !has(reqCC, "no-store") && storableRespA(resp.StatusCode, hget(resp.Header, "Expires"), hasArr(resCC))     # name: only-storable
+//@ func isStatusUnderstood
+//@   property C06
+//@   pure
+//@   ensures result == statusUnderstood(code)             # name: exact
+
+// lastSetOK: the last ResponseCache.Set of this exchange succeeded (the index may be written only then)
+//@ ghost var lastSetOK bool
+//@ iface ResponseCache.Set(c, key, entry)
+//@   property C06
+//@   requires entry != nil && entry.Data != nil                                     # name: entry-well-formed
+//@   requires storableStatus(entry.Data.StatusCode)                                 # name: status-storable
+//@   assigns storeWrites, lastSetOK
+//@   ensures lastSetOK == (result == nil)
+//@ iface ResponseCache.SetRefs(c, key, refs)
+//@   property C06
+//@   requires lastSetOK                                                             # name: entry-was-stored
+//@   assigns storeWrites
+//@ iface ResponseCache.Delete(c, key)
+//@   assigns storeWrites
 
 //@ iface ResponseStorer.StoreResponse(s, req, resp, urlKey, refs, reqTime, respTime, refIndex)
-//@   requires req != nil && resp != nil && resp.Header != nil
-//@   assigns storeWrites, map(resp.Header), elems(refs), now
+//@   property C06
+//@   requires req != nil && resp != nil && resp.Header != nil                       # name: well-formed
+//@   requires storableReq(req)                                                      # name: request-storable
+//@   requires storableResp(resp)                                                    # name: response-storable
+//@   assigns storeWrites, lastSetOK, map(resp.Header), elems(refs), now
 //@   ensures resp.Header != nil
 
 //@ iface CacheInvalidator.InvalidateCache(ci, reqURL, respHeader, refs, key)
@@ -463,11 +502,13 @@ package internal
 //@   loop 0 invariant forall j int :: 0 <= j && j <= rangeindex && sies[j] != nil && sieValidI(sies[j]) ==> !sieWellWithin(fAge(freshness, now), freshness.UsefulLife, sieDurI(sies[j]))
 
 //@ iface ValidationResponseHandler.HandleValidationResponse(h, ctx, req, resp, err)
-//@   property C02 C13 C10
+//@   property C02 C13 C10 C06
 //@   requires req != nil && req.URL != nil && ctx.Stored != nil && ctx.Stored.Data != nil && ctx.Stored.Data.Header != nil
 //@   requires ctx.Freshness != nil && ctx.Freshness.Age != nil
 //@   requires (resp != nil && resp.Header != nil && err == nil) || (resp == nil && err != nil)
 //@   requires resp == nil || (resp != ctx.Stored.Data && resp.Header != ctx.Stored.Data.Header)
+//@   requires req.Method == "GET" && hget(req.Header, "Range") == ""                                # name: plain-get
+//@   requires hasArr(ctx.CCReq) == dirsHas(ccText(req.Header))                                       # name: request-directives-are-the-requests
 //@   let ts = old(ccText(ctx.Stored.Data.Header))
 //@   let hs = dirsHas(ts)
 //@   let vs = dirsVal(ts)
@@ -551,3 +592,28 @@ package internal
 //@   property C04 C10
 //@   requires vm != nil && vm.hvn != nil
 //@   loop 0 invariant -1 <= rangeindex && rangeindex < len(entries) && allRefsNonNil(entries)
+
+//@ iface VaryHeaderNormalizer.NormalizeVaryHeader(n, vary, reqHeader)
+//@   pure
+//@   ensures result != nil
+//@ iface VaryKeyer.VaryKey(k, urlKey, varyHeaders)
+//@   pure
+//@ func removeHopByHopHeaders
+//@   property C05 C06
+//@   nosafety
+//@   requires resp != nil && resp.Header != nil
+//@   assigns map(resp.Header)
+
+//@ func (*responseStorer).StoreResponse
+//@   implements ResponseStorer.StoreResponse
+//@   property C06 C10
+//@   requires r != nil && r.cache != nil && r.vhn != nil && r.vk != nil
+
+//@ extern maps.Collect(seq)
+//@   pure
+//@   fresh
+//@   ensures result != nil
+//@ extern slices.Grow(s, n)
+//@   pure
+//@   ensures len(result) == len(s) && cap(result) >= len(s) + n && (forall i int :: 0 <= i && i < len(s) ==> result[i] == s[i])
+//@   ensures sameArray(result, s) || fresh(result)
